@@ -8,30 +8,24 @@ PY = '/venv/bin/python'
 TECHNIQUE = ("bounded-exhaustive explicit-state exploration of the real implementation "
              "(every case of a stated finite space) against a reference model")
 
-# id -> (design section, what the level means for this property, trusted base note)
-CHECKS = {
-    'C01': ('3/C01', "every grid kind x every linear index with margin x every native index with margin, on "
-                     "every grid shape up to 4x4 (5x1) of every convention and every mesh of the library, "
-                     "compared with row-major arithmetic; out-of-range must raise",
-            "numpy, the builders in mc/builders.py; shapes above the bound are not explored"),
-    'C02': ('3/C02', "every cell of every grid kind of every dataset in the family list (all conventions, holes, skew, "
-                     ">10 cells): flattened value == value selected through the native index == builder label; "
-                     "polygon / centre / spatial-index position n belong to the cell at native index n",
-            "shapely/GEOS as geometry kernel; dyadic coordinates; CF2D derived bounds next to holes not judged"),
-    'C03': ('3/C03', "every permutation of 0..3 extra dimensions with the grid dimensions of every grid kind, every "
-                     "wind mode (default/axis/name) and linear-dimension naming case, both round-trip directions, "
-                     "against numpy.moveaxis+reshape",
-            "numpy/xarray transposition semantics; names colliding with a remaining dimension may be refused"),
-    'C05': ('3/C05', "every index list of length <=3 over 4 cells (repeats, all orders) on every grid kind, every "
-                     "point list of length <=4 over {hit, tie, second, miss} under every missing-point policy, "
-                     "for select_index(es), select_points and extract_dataframe, compared with builder labels",
-            "pandas/xarray merge semantics; all-miss with drop may be refused"),
-}
+import glob
+import importlib
+
+
+def load_checks() -> dict:
+    out = {}
+    for path in sorted(glob.glob(os.path.join(VERIF, 'mc', 'checks', 'c[0-9][0-9].py'))):
+        name = os.path.basename(path)[:-3]
+        module = importlib.import_module(f'mc.checks.{name}')
+        out[module.PROPERTY] = (f'3/{module.PROPERTY}', module.LEVEL_TEXT, module.LEVEL_NOTE)
+    return out
+
 
 PENDING_REASON = "check not built yet in this session (planned in DESIGN.md section 11)"
 
 
 def main() -> None:
+    CHECKS = load_checks()
     properties = []
     with open(os.path.join(VERIF, 'properties.jsonl')) as f:
         for line in f:
